@@ -131,6 +131,16 @@ CLAIMS = {
              "priority_queue_node is checked against the node contract sequentially, queue/sequencer/limiter/join graphs with real threads (order, threshold, matching tuples, conservation). "
              "Concurrency inside one node is serialised by its aggregator (not modelled).",
         ref="4/C15"),
+    "C14": dict(
+        technique="Coq proof: invariant by induction over arbitrary operation sequences of the function-node input stage (concurrency counter + input queue); scripted differential tie with blocking bodies; "
+                  "real-thread oracle runs for fan-out and wait_for_all",
+        text="Proved for every concurrency limit, both policies and every sequence of try_put / body completion / forwarder runs: running bodies never exceed the limit (serial: never two); started ++ queued = "
+             "accepted messages in order (each accepted message started exactly once, in arrival order, none dropped or duplicated); a message is queued only while the node is saturated, so an idle node "
+             "has an empty queue; a rejecting node never queues. Tie: a real function_node whose bodies block until the script releases them is driven op by op; results, start counts, start order, "
+             "my_concurrency and queue length are compared with the model; oracles: observed concurrency <= limit, accepted = finished at wait_for_all, wait_for_all does not return while a body runs.",
+        note="PARTIAL: only function_input_base is modelled. Successor caches / broadcast fan-out, input_node, multifunction/continue/async nodes, reserve_wait, cancellation and exceptions in a graph are "
+             "covered by real-thread oracle runs only (limit, exactly-once per node, once per successor, idle at wait_for_all); the pull path of rejecting nodes with buffering predecessors is exercised under C15.",
+        ref="4/C14"),
     "C20": dict(
         technique="Coq proof: exact characterisation of the reachable configurations of the suspend/resume handshake (inductive invariant, all interleavings); real suspend/resume runs with racing resumers under an exactly-once oracle",
         text="For every interleaving of the suspending thread's exchange(suspended)/self-resume with a resume() from anywhere (incl. the suspend callback itself): at most one resume task is pushed, "
